@@ -155,6 +155,7 @@ def check(ctx):
     # longer has (rule of C17)
     from .C17 import check_lookup_superset_tolerated
     check_lookup_superset_tolerated(ctx)
+    check_results_blob_written_as_computed(ctx)
 
 
 def _node_of(cfg, rd, astn):
@@ -1243,3 +1244,58 @@ def check_reconcile_one_sided(ctx):
     if k == 0:
         raise AnalysisError('no failing verdict found in '
                             'reconcile_taxonomy_and_markers')
+
+
+def check_results_blob_written_as_computed(
+        ctx, rule='R-SAMEVAL/results-written-as-computed'):
+    """the records `_run_mapping` returns are the records that are written:
+    in run_mapping (and the on-the-fly front end) the blob that holds
+    'results' is never replaced by the result of a function applied to it
+    (`output = f(output)`): a transformation of the whole blob -- a
+    sanitiser, a cleaner -- rewrites cell ids and node names that look like
+    something else.  Keys are added to it and the log is sanitised on its
+    own."""
+    db = ctx.db
+    n = 0
+    for q in ('cli.from_specified_markers:run_mapping',
+              'cli.map_to_on_the_fly_markers:OnTheFlyMapper.run'):
+        fi = db.fn(q, required=False)
+        if fi is None:
+            continue
+        blobs = set()
+        for st in ast.walk(fi.node):
+            if isinstance(st, ast.Assign) and isinstance(
+                    st.targets[0], ast.Subscript) and isinstance(
+                        st.targets[0].value, ast.Name) and isinstance(
+                            st.targets[0].slice, ast.Constant) \
+                    and st.targets[0].slice.value in ('config', 'log',
+                                                      'metadata'):
+                blobs.add(st.targets[0].value.id)
+        for b in sorted(blobs):
+            n += 1
+            bad = None
+            for st in ast.walk(fi.node):
+                if isinstance(st, ast.Assign) and any(
+                        isinstance(t, ast.Name) and t.id == b
+                        for t in st.targets) and isinstance(
+                            st.value, ast.Call):
+                    nm = getattr(st.value.func, 'attr', getattr(
+                        st.value.func, 'id', None))
+                    uses = any(isinstance(x, ast.Name) and x.id == b
+                               for a in list(st.value.args) + [
+                                   k.value for k in st.value.keywords]
+                               for x in ast.walk(a))
+                    if uses and nm not in ('deepcopy', 'copy', 'dict'):
+                        bad = st
+            ctx.touch(fi)
+            ctx.ob(rule, f'{fi.qual}:{b}', fi.loc(bad or fi.node),
+                   bad is None,
+                   f'`{b}` is only added to' if bad is None else
+                   f'`{unparse(bad)[:60]}` replaces the whole output blob, '
+                   'the per-cell records included, by a transformed copy: '
+                   'cell ids and assignments are no longer written as they '
+                   'were computed')
+    if n < 1:
+        raise AnalysisError('no output blob found in the mapping front '
+                            'ends')
+    return n
